@@ -89,3 +89,12 @@ func VerifC15_StagesRunInOrder() {
 //verif:timeout 600
 //verif:deadlock 1
 func VerifC05_ConsecutivePoolsComplete() { VerifC15_StagesRunInOrder() }
+
+// VerifC06_ConsecutivePoolsComplete: the same harness under C06: the run's setup cleanups are released by the pool
+// manager's completion signal, so that signal must not fire while an iteration of ANY stage is still in flight.
+//
+//verif:conc
+//verif:unroll 2
+//verif:timeout 600
+//verif:deadlock 1
+func VerifC06_ConsecutivePoolsComplete() { VerifC15_StagesRunInOrder() }
